@@ -349,19 +349,47 @@ def h_exec(ctx: Any, bench: str, twin: bool = False) -> None:
     ctx.assume(base >= len(labels))
     # (not directly before an existing Z: two marks in a row on one step are not clearly covered by Appendix B)
     positions = [i + 1 for i, st in enumerate(steps) if st != 'Z' and (i + 1 == len(steps) or steps[i + 1] != 'Z')]
-    pos = positions[ctx.choose(len(positions), 'extra mark after step')] if not twin else positions[0]
-    k = sum(1 for st in steps[:pos] if st == 'Z')
+    # one or two extra marks (two of them may follow steps with equal results: both get a number)
+    p1 = positions[ctx.choose(len(positions), 'extra mark after step')] if not twin else positions[0]
+    rest = [p for p in positions if p > p1]
+    j = ctx.choose(len(rest) + 1, 'second extra mark') if not twin else 0
+    extra = [p1] + ([rest[j - 1]] if j else [])
+    pos = tuple(extra)
     new = []
-    for i, st in enumerate(steps):
-        if i == pos:
+    marks_seen = 0  # marks of the new proof emitted so far
+    shift_at = []  # the new marks' ordinal numbers
+    for i, st in enumerate(steps + [None]):
+        if i in extra:
+            marks_seen += 1
+            shift_at.append(marks_seen)
             new.append('Z')
-        new.append(st + 1 if st != 'Z' and st > base + k else st)
-    if pos == len(steps):
-        new.append('Z')
+        if st is None:
+            break
+        if st == 'Z':
+            marks_seen += 1
+            new.append('Z')
+        elif st > base:
+            # a reference to the k-th original mark: its new ordinal = k + number of extra marks placed before it
+            k = st - base
+            orig_seen = 0
+            nk = None
+            cnt = 0
+            for ii, s2 in enumerate(steps):
+                if ii in extra:
+                    cnt += 1
+                if s2 == 'Z':
+                    orig_seen += 1
+                    cnt += 1
+                    if orig_seen == k:
+                        nk = cnt
+                        break
+            new.append(base + nk)
+        else:
+            new.append(st)
     text = ''.join(st if st == 'Z' else _encode_concrete(st) for st in new)
     src2 = src[: mm.start(4)] + ' ' + text + ' ' + src[mm.end(4):]
     ctx.count('reached')
-    ctx.sample({'benchmark': bench, 'extra_mark_after_step': pos, 'proof_text': text})
+    ctx.sample({'benchmark': bench, 'extra_marks_after_steps': list(pos), 'proof_text': text})
     if twin:
         ctx.violation('TWIN')
     outcomes = []
@@ -378,7 +406,7 @@ def h_exec(ctx: Any, bench: str, twin: bool = False) -> None:
         except Exception as e:
             outcomes.append((label, f'raised {type(e).__name__}: {str(e)[:80]}', None, None))
     ctx.assume(outcomes[0][1] == 'ok')
-    ctx.check(outcomes[1][1] == 'ok', 'C15.exec.marked-steps.raises', lambda: f'{bench}: proof {text!r} (one more mark after step {pos}): {outcomes[1][1]}')
+    ctx.check(outcomes[1][1] == 'ok', 'C15.exec.marked-steps.raises', lambda: f'{bench}: proof {text!r} (extra marks after steps {pos}): {outcomes[1][1]}')
     ctx.check(outcomes[1][2] == outcomes[1][3], 'C15.exec.marked-steps.claim-not-discharged', lambda: f'{bench}: proof {text!r}: {outcomes[1][2]} claim(s) left')
 
 
@@ -402,7 +430,7 @@ def levels(tier: str) -> list[dict]:
     for nv, nl, ns in ([(1, 1, 2), (3, 3, 1), (3, 1, 2)] if q else [(1, 2, 3), (3, 3, 2), (3, 1, 3), (2, 2, 4)]):
         L.append(dict(label=f'import_proof/vars<={nv},labels<={nl},steps<={ns}', module=M, fn='h_proof', kwargs=dict(nvars=nv, nlabels=nl, nsteps=ns), budget_s=bud, required=True, twin=(nv == 1)))
     for bench in (('impreflex-compressed-goal',) if q else ('impreflex-compressed-goal', 'transfer-simple-compressed-goal')):
-        L.append(dict(label=f'exec_proof/{bench}/one more mark after any step', module=M, fn='h_exec', kwargs=dict(bench=bench), budget_s=bud, required=q, twin=False))
+        L.append(dict(label=f'exec_proof/{bench}/one or two more marks after any steps', module=M, fn='h_exec', kwargs=dict(bench=bench), budget_s=bud, required=q, twin=False))
     for nv, nl, ns in ([(3, 2, 1)] if q else [(3, 2, 1), (3, 3, 2)]):
         L.append(dict(label=f'import_proof/top-level|block|block-with-$d, with and without an earlier theorem/vars<={nv},labels<={nl},steps<={ns}', module=M, fn='h_proof', kwargs=dict(nvars=nv, nlabels=nl, nsteps=ns, layouts=True), budget_s=bud, required=True, twin=False))
     return L
